@@ -121,7 +121,8 @@ def gen_loss_case(rng, name):
             "frame": n in (2, 4, 8) and rng.random() < 0.3}
 
 
-def judge_loss(ctx, c, r, m_val):
+def judge_loss(ctx, c, r, m_all):
+    m_val, mdd, mdlp = m_all if m_all is not None else (None, None, None)
     name = c["loss"]
     d = [F(x) for x in c["d"]]
     p = [F(x) for x in c["p"]]
@@ -158,9 +159,7 @@ def judge_loss(ctx, c, r, m_val):
          "scaling_up_not_rewarded": not (r["dlp"] < r["dd"] - tol)}
     S = {"zero_at_data": True, "nonneg": True, "zero_only_at_data": True, "scaling_up_not_rewarded": True}
     M = None
-    if name in EXACT and ctx.driver_ok:
-        (mdd, mdlp) = driver.call_batch([{"op": "c20", "loss": name, "d": c["d"], "p": c["d"]},
-                                         {"op": "c20", "loss": name, "d": c["d"], "p": [q(lam * x) for x in p]}])
+    if name in EXACT and m_val is not None:
         mdp = F(m_val)
         M = {"zero_at_data": F(mdd) == 0, "nonneg": mdp >= 0, "zero_only_at_data": (mdp == 0) == (d == p),
              "scaling_up_not_rewarded": not (F(mdlp) < F(mdd))}
@@ -168,6 +167,20 @@ def judge_loss(ctx, c, r, m_val):
             M = None  # float rounding of /n can turn an exact 0 into 1e-17; the model is compared on the exact stratum
     ctx.judge({"stream": "prop", **c}, R, S, M, finding=FINDING.get(name),
               what=f"losses.{name}: discrepancy-measure laws on this (data, prediction, factor)")
+
+
+def model_losses(ctx, cases):
+    """the generated definitions at (d, p), (d, d) and (d, lam*p), one driver batch"""
+    if not ctx.driver_ok:
+        return [None] * len(cases)
+    reqs = []
+    for c in cases:
+        nm = "mean_squared" if c["loss"] == "rmse" else c["loss"]
+        lam = F(c["lam"])
+        reqs += [{"op": "c20", "loss": nm, "d": c["d"], "p": c["p"]}, {"op": "c20", "loss": nm, "d": c["d"], "p": c["d"]},
+                 {"op": "c20", "loss": nm, "d": c["d"], "p": [q(lam * F(x)) for x in c["p"]]}]
+    resp = driver.call_batch(reqs)
+    return [tuple(resp[3 * i:3 * i + 3]) for i in range(len(cases))]
 
 
 # ----------------------------------------------------------------------------- _Settings.loss scaling
@@ -445,11 +458,7 @@ def run(ctx):
         Rl = [r for ch in ex.map(real_losses, chunks) for r in ch]
         Rs = real_settings(set_cases)
         Rf = [f.result() for f in fut_fit]
-    if ctx.driver_ok:
-        Ml = driver.call_batch([{"op": "c20", "loss": "mean_squared" if c["loss"] == "rmse" else c["loss"], "d": c["d"], "p": c["p"]}
-                                for c in loss_cases])
-    else:
-        Ml = [None] * len(loss_cases)
+    Ml = model_losses(ctx, loss_cases)
     for c, r, m in zip(loss_cases, Rl, Ml):
         judge_loss(ctx, c, r, m)
     for c, r in zip(set_cases, Rs):
@@ -469,9 +478,7 @@ def replay(ctx, rp):
     stream = c.pop("stream", "val")
     if stream in ("val", "prop", "frame"):
         (r,) = real_losses([c])
-        m = None
-        if ctx.driver_ok:
-            (m,) = driver.call_batch([{"op": "c20", "loss": "mean_squared" if c["loss"] == "rmse" else c["loss"], "d": c["d"], "p": c["p"]}])
+        (m,) = model_losses(ctx, [c])
         print("R =", r, "\nM =", m)
         judge_loss(ctx, c, r, m)
     elif stream == "scale":
